@@ -667,5 +667,5 @@ func (p *c06) Assumptions() []string {
 }
 
 func (p *c06) Floors(tier string) map[string]int64 {
-	return map[string]int64{"exec_steps": 50000, "distinct_nontrivial": 500}
+	return map[string]int64{"exec_steps": 50000, "distinct_nontrivial": 500, "class:multi-entry-loop": 1, "class:truth-carrier": 40}
 }
